@@ -1,6 +1,7 @@
 package rules
 
 import (
+	"regexp"
 	"fmt"
 	"go/token"
 	"go/types"
@@ -525,6 +526,15 @@ func ruleValueBlind(rule string) RuleFn {
 				base := nm
 				if i := strings.Index(nm, "$"); i > 0 {
 					base = nm[:i]
+				}
+				if base == "(dig.resultList).ExtractList" && fn.Parent() == nil {
+					// only the error-typed results (resultIndexes[i] < 0) are looked at; every other value is handed on unseen
+					errPos := an.EdgesWhere(fn, func(ft an.Fact) bool {
+						return regexp.MustCompile(`^\(p:rl\.resultIndexes\[.*\] (< 0|<= -1)\)$`).MatchString(ft.S) || regexp.MustCompile(`^!\(p:rl\.resultIndexes\[.*\] (>= 0|> -1)\)$`).MatchString(ft.S)
+					})
+					hit, _ := an.PathTo(fn, nil, an.IsInstr(k), an.NewGates().AddEdges(errPos...))
+					c.Check(hit == nil && len(errPos) > 0, rule, "reflect.Value."+f.Name()+" in "+nm+" only on an error-typed result", "under resultIndexes[i] < 0", "ExtractList looks inside a returned value that is not an error result ("+an.Norm(k.Common().Args[0])+"."+f.Name()+"()): a verdict depends on what the function returned - under DryRun every result is a zero value (a nil func, a nil pointer, an empty slice), so the dry container judges the same program differently", k, nil)
+					return
 				}
 				c.Check(allowed[base] || privateHelperOf(c, fn, allowed, 0), rule, "reflect.Value."+f.Name()+" in "+nm, "delivery of results / entry validation", "dig inspects a run-time value ("+an.Norm(k.Common().Args[0])+"."+f.Name()+"()) in "+nm+": a verdict now depends on what user functions returned, so it differs under DryRun (zero values) or between runs", k, nil)
 			})
